@@ -531,25 +531,34 @@ def _c14(payload):
             viol.append(V("C14:clip", d))
     # extending the end date leaves completed seasons unchanged
     wlast = pd.Timestamp(w.Date.iloc[-1])
-    ext = endd + pd.Timedelta(days=rng.choice([1, 30, 200, 400]))
-    if ext <= wlast and not (ext.month == 2 and ext.day == 29):
+    exts = [endd + pd.Timedelta(days=rng.choice([1, 30, 200, 400]))]
+    if payload.get("long_extension"):
+        # ... however far: to (nearly) the end of the weather file — decades more, so that anything that depends on the LENGTH of the
+        # whole simulation period shows in the seasons completed long before
+        far = wlast - pd.Timedelta(days=rng.choice([3, 40, 400]))
+        if far > exts[0] + pd.Timedelta(days=3000):
+            exts.append(far)
+    for ext in exts:
+        if not (ext <= wlast and not (ext.month == 2 and ext.day == 29)):
+            continue
         try:
             m5, t5 = _run_with_weather(cfg, w.copy(), end=ext.strftime("%Y/%m/%d"))
-            checks += 1
-            done = [r for r in t0["final"] if int(r[3]) < n - 2]      # seasons harvested before the original end
-            for r in done:
-                k = int(r[0]); hs = int(r[3])
-                r5 = [x for x in t5["final"] if int(x[0]) == k]
-                if not r5 or json.dumps(r5[0], default=str) != json.dumps(r, default=str):
-                    viol.append(V("C14:extend_end:summary", "extending the end date changes the summary row of completed season %d: %r vs %r" % (k, r, r5[:1]), season=k))
-            if done:
-                hs = max(int(r[3]) for r in done)
-                for nm in ("flux", "storage", "growth"):
-                    d = first_diff(t0[nm][:hs + 1], t5[nm][:hs + 1])
-                    if d:
-                        viol.append(V("C14:extend_end:%s" % nm, "extending the end date changes rows up to the last completed harvest in table %s: %s" % (nm, d)))
         except Exception:
-            pass
+            continue
+        checks += 1
+        how = "extending the end date by %d days" % (ext - endd).days
+        done = [r for r in t0["final"] if int(r[3]) < n - 2]      # seasons harvested before the original end
+        for r in done:
+            k = int(r[0]); hs = int(r[3])
+            r5 = [x for x in t5["final"] if int(x[0]) == k]
+            if not r5 or json.dumps(r5[0], default=str) != json.dumps(r, default=str):
+                viol.append(V("C14:extend_end:summary", "%s changes the summary row of completed season %d: %r vs %r" % (how, k, r, r5[:1]), season=k, extension_days=int((ext - endd).days), long_extension=bool(payload.get("long_extension"))))
+        if done:
+            hs = max(int(r[3]) for r in done)
+            for nm in ("flux", "storage", "growth"):
+                d = first_diff(t0[nm][:hs + 1], t5[nm][:hs + 1])
+                if d:
+                    viol.append(V("C14:extend_end:%s" % nm, "%s changes rows up to the last completed harvest in table %s: %s" % (how, nm, d), extension_days=int((ext - endd).days), long_extension=bool(payload.get("long_extension"))))
     for v in viol:
         v["cfg"] = cfg
     return {"status": "ok", "violations": viol, "checks": checks, "calendar_days": calendar_days}
@@ -575,6 +584,19 @@ def _c15(payload):
         variants.append(("columns permuted " + ",".join(p), w[p].copy()))
     w2 = w.copy(); w2.insert(0, "Station", "X"); w2["Wind"] = 3.3; w2.insert(2, "Humidity", np.arange(len(w2)) * 1.0)
     variants.append(("extra columns", w2))
+    # unrelated extra columns as real station files have them: names that resemble the required ones (SoilTemp, MeanTemp, Temp_flag,
+    # Precip_qc, ET0_source, Date_obs), and GAPS (NaN / None / NaT) in them on days inside the simulated period
+    w6 = w.copy()
+    inwin = np.flatnonzero(((w6.Date >= start) & (w6.Date <= endd)).values)
+    gaps = [int(inwin[rng.randrange(len(inwin))]) for _ in range(5)] if len(inwin) else []
+    soil = 40.0 + np.arange(len(w6)) % 17; mean = np.full(len(w6), -35.0)
+    wind = np.full(len(w6), 2.5); wind[gaps] = np.nan
+    w6.insert(1, "SoilTemp", soil); w6["MeanTemp"] = mean; w6["Temp_flag"] = 99.0; w6["WindSpeed"] = wind
+    w6["Precip_qc"] = ["ok"] * len(w6); w6["ET0_source"] = None
+    dobs = w6["Date"] + pd.Timedelta(days=400)
+    dobs = dobs.astype("datetime64[ns]"); dobs.iloc[gaps] = pd.NaT
+    w6["Date_obs"] = dobs
+    variants.append(("look-alike extra columns with gaps", w6))
     w3 = w.copy(); w3.index = np.arange(len(w3))[::-1] + 1000
     variants.append(("re-indexed (reversed integer labels)", w3))
     w4 = w.copy(); w4.index = ["r%d" % i for i in range(len(w4))]
